@@ -1,4 +1,5 @@
 import DendroModel.Model.C12
+import DendroModel.Theory.C08Len
 /-! C12 — property theorems about the memo-driven copy model (`cpVal`/`cpFields`/`cpItems` of `Model/C12.lean`,
 the definitions the driver runs).
 
@@ -7,7 +8,7 @@ the definitions the driver runs).
 their label-matched taxa: copy into another namespace).  Property theorems live in `namespace DendroModel.C12`,
 helper lemmas in `DendroModel.C12.Aux`. -/
 namespace DendroModel.C12
-open DendroModel
+open DendroModel DendroModel.C08
 
 /-- the targets of a memo (`memo.values()`) -/
 def targets (m : Memo) : List Nat := m.map Prod.snd
@@ -817,7 +818,9 @@ theorem route_no_write (h : Heap) (pre : List (Nat × PreTarget)) (root : Val) (
   exact copy_no_write_scoped (2 * h.size + 1) s0h s0m root s' v' hunb hc x (by simp at hsz; omega)
 
 /-- **route_shares_only_preseeded**: an exported (old) object reachable from the result of the driver's `copyRoute` is
-reachable from a seeded target, and every seeded target is a listed `.existing` target of the route or a new taxon. With
+reachable from a seeded target, and every seeded target is a listed `.existing` target of the route or a new taxon (index `≥ h.size`).
+Note the second disjunct: a new taxon carries the source taxon's `_label` VALUE verbatim (`newTaxon`, as `Taxon(label=t1.label)`
+does), so a reference-valued label would be shared through it and this theorem allows that; exported labels are atoms. With
 `pre = []` (deep copy) no exported object is reachable from the copy at all. -/
 theorem route_shares_only_preseeded (h : Heap) (pre : List (Nat × PreTarget)) (root : Val) (s' : St) (v' : Val)
     (hr : copyRoute h pre root = .ok (s', v')) :
@@ -2068,7 +2071,9 @@ PARTIAL — what is missing for the full equality clause: (1) for annotation-set
 copy's item list consists of the memo-images of the source's items, in order, is not proved; (2) attributes correspond as sets of
 (name, value) pairs, their order in `__dict__` is not stated; (3) the memo-image is a relation (`(i, j) ∈ memo`), its
 functionality (one copy per source) is only known for fresh targets the other way round (`copy_memo_injective`). All three are
-covered by the per-case comparison of the canonical graph of the model's copy with the real copy. -/
+covered by the per-case comparison of the canonical graph of the model's copy with the real copy.  Pre-seeded pairs are exempt
+(`p ∈ pre`): that a taxon is seeded to the taxon of the same label of the other namespace is decided by the harness
+(its own label match), not by a theorem.  Route-level form: `route_iso_partial`. -/
 theorem copy_iso_partial (c : Nat) (h : Heap) (pre : Memo) (v : Val) (fuel : Nat) (s' : St) (v' : Val)
     (wf : WellFormed c h) (hnw : ∀ x ∈ targets pre, isBound h x = false) (hpre : ∀ p ∈ pre, p.2 < h.size)
     (hann : ∀ (i : Nat) (o : Obj) (a : Nat), i < c → h[i]? = some o → annotationsRef o = some a →
@@ -2099,6 +2104,37 @@ theorem copy_root_corresponds (c : Nat) (h : Heap) (pre : Memo) (r : Nat) (fuel 
   cases v' with
   | atom a => simp [ValRel] at hrel
   | ref j => exact ⟨j, rfl, hrel, hall (r, j) hrel⟩
+
+/-- **route_iso_partial**: `copy_iso_partial` for the function the driver runs: after `copyRoute` on a well-formed exported heap, the
+result is the memo-image of the root and every memo entry is either one the pre-seeding produced (`s0.m`) or pairs an object of the
+pre-seeded heap `s0.h` (which agrees with the exported heap on every exported index) with a corresponding copy.  Same omissions. -/
+theorem route_iso_partial (h : Heap) (pre : List (Nat × PreTarget)) (root : Val) (s' : St) (v' : Val)
+    (wf : WellFormed h.size h) (hT : ∀ i t, (i, PreTarget.existing t) ∈ pre → isBound h t = false)
+    (hann : ∀ (i : Nat) (o : Obj) (a : Nat), i < h.size → h[i]? = some o → annotationsRef o = some a →
+      ∃ ao, h[a]? = some ao ∧ ao.kind = .annset)
+    (hroot : SrcVal h.size root) (hr : copyRoute h pre root = .ok (s', v')) :
+    ∃ s0, preseed ⟨h, []⟩ pre = .ok s0 ∧ (∀ x, x < h.size → s0.h[x]? = h[x]?) ∧ ValRel s'.m root v' ∧
+      ∀ p ∈ s'.m, p ∈ s0.m ∨
+        ∃ o o', s0.h[p.1]? = some o ∧ s'.h[p.2]? = some o' ∧ (o.kind = .annset ∨ ObjRel s'.m o o') := by
+  obtain ⟨s0, hp, hc, hsz, hold, hlt, htgt, hnb⟩ := route_spec h pre root s' v' hr
+  have wf0 : WellFormed h.size s0.h := wf_congr wf hold hsz
+  have hunb : ∀ t ∈ targets s0.m, isBound s0.h t = false := by
+    intro t ht
+    by_cases hl : t < h.size
+    · rcases htgt t ht with ⟨i, hi⟩ | hge
+      · rw [isBound_congr (hold t hl)]; exact hT i t hi
+      · omega
+    · exact hnb t (by omega)
+  have hann0 : ∀ (i : Nat) (o : Obj) (a : Nat), i < h.size → s0.h[i]? = some o → annotationsRef o = some a →
+      ∃ ao, s0.h[a]? = some ao ∧ ao.kind = .annset := by
+    intro i o a hi hg ha
+    rw [hold i hi] at hg
+    obtain ⟨ao, h1, h2⟩ := hann i o a hi hg ha
+    have hac : a < h.size := wf.closed i o hi hg _ (annotationsRef_mem ha) a rfl
+    exact ⟨ao, by rw [hold a hac]; exact h1, h2⟩
+  obtain ⟨s0h, s0m⟩ := s0
+  obtain ⟨r1, r2⟩ := copy_iso_partial h.size s0h s0m root (2 * h.size + 1) s' v' wf0 hunb hlt hann0 hroot hc
+  exact ⟨⟨s0h, s0m⟩, hp, hold, r1, r2⟩
 
 /-! ### histories of later changes -/
 
@@ -2158,7 +2194,9 @@ theorem frame_source_history (fuel : Nat) (h : Heap) (pre : Memo) (v : Val) (s' 
     exact hnot r hr1 hr2
   · omega
 
-/-- **frame_copy_history**: for EVERY history of later changes on the copy side — any sequence of allocations and of
+/-- **frame_copy_history** (a heap fact plus `copy_no_write_scoped`; its hypothesis on the writes — index `≥ h.size` — IS "no exported object
+is written", so the copy-specific content is nil; the statement with source- and copy-side writes interleaved, whose copy half rests
+on `copy_shares_only_preseeded`, is `frame_interleaved_history`): for EVERY history of later changes on the copy side — any sequence of allocations and of
 overwrites of objects allocated by the copy or later — every exported object is unchanged at the end (given that no
 pre-seeded target is a bound annotation), so no change of the copy is visible through the source. -/
 theorem frame_copy_history (fuel : Nat) (h : Heap) (pre : Memo) (v : Val) (s' : St) (v' : Val)
@@ -2170,6 +2208,75 @@ theorem frame_copy_history (fuel : Nat) (h : Heap) (pre : Memo) (v : Val) (s' : 
   have hb := ((pval_all h.size h pre fuel) _ _ _ _ (good_init h pre) hr).1.base
   rw [applyOps_untouched ops s'.h x (by omega) (by intro x' o hm e; subst e; have := hops _ o hm; omega)]
   exact copy_no_write_scoped fuel h pre v s' v' hpre hr x hx
+
+namespace Aux
+/-- dropping writes that never hit `y` from a history does not change what `y` holds at the end (sizes evolve identically) -/
+theorem applyOps_drop (drop : Nat → Bool) (y : Nat) : ∀ (ops : List Op) (h1 h2 : Heap), h1.size = h2.size → h1[y]? = h2[y]? →
+    (∀ x o, Op.write x o ∈ ops → drop x = true → x ≠ y) →
+    (applyOps h1 ops)[y]? =
+      (applyOps h2 (ops.filter (fun op => match op with | .write x _ => !drop x | .alloc _ => true)))[y]? := by
+  intro ops
+  induction ops with
+  | nil => intro h1 h2 _ e _; simpa [applyOps] using e
+  | cons op r ih =>
+    intro h1 h2 hs e hw
+    have hw' : ∀ x o, Op.write x o ∈ r → drop x = true → x ≠ y := fun x o hm => hw x o (List.mem_cons_of_mem _ hm)
+    cases op with
+    | alloc o =>
+      simp only [List.filter_cons]
+      show (applyOps (h1.push o) r)[y]? = (applyOps (h2.push o) _)[y]?
+      apply ih _ _ (by simp [hs]) _ hw'
+      simp only [Array.getElem?_push, hs]
+      split
+      · rfl
+      · exact e
+    | write x o =>
+      by_cases hd : drop x = true
+      · have hne : x ≠ y := hw x o (by simp) hd
+        simp only [List.filter_cons, hd]
+        show (applyOps (h1.setIfInBounds x o) r)[y]? = (applyOps h2 _)[y]?
+        apply ih _ _ (by simp [hs]) _ hw'
+        simp [Array.getElem?_setIfInBounds, hne]; exact e
+      · have hd' : drop x = false := by simpa using hd
+        simp only [List.filter_cons, hd']
+        show (applyOps (h1.setIfInBounds x o) r)[y]? = (applyOps (h2.setIfInBounds x o) _)[y]?
+        apply ih _ _ (by simp [hs]) _ hw'
+        simp only [Array.getElem?_setIfInBounds, hs]
+        split
+        · split <;> rfl
+        · exact e
+end Aux
+open Aux
+
+/-- **frame_interleaved_history**: for EVERY interleaved history of later changes — allocations, overwrites of source-side objects
+(old objects not reachable from a pre-seeded target) and overwrites of copy-side objects (allocated by the copy or later), in any
+order — (1) what any object of the copy holds at the end is what it would hold had the source-side overwrites never happened, and
+(2) what any exported object holds at the end is what it would hold had the copy-side overwrites never happened: no change of either
+side is visible through the other.  (1) is the copy-specific half (it rests on `copy_shares_only_preseeded`); (2) is a plain heap
+fact (copy-side objects have indices `≥ h.size`); together with `copy_no_write*` the exported objects start from their old content. -/
+theorem frame_interleaved_history (fuel : Nat) (h : Heap) (pre : Memo) (v : Val) (s' : St) (v' : Val)
+    (hr : cpVal fuel ⟨h, pre⟩ v = .ok (s', v')) (ops : List Op)
+    (hops : ∀ x o, Op.write x o ∈ ops → (x < h.size → ∀ r ∈ targets pre, ¬ Reach s'.h (.ref r) x)) :
+    (∀ y, Reach s'.h v' y →
+      (applyOps s'.h ops)[y]? =
+        (applyOps s'.h (ops.filter (fun op => match op with | .write x _ => !(decide (x < h.size)) | .alloc _ => true)))[y]?) ∧
+    (∀ y, y < h.size →
+      (applyOps s'.h ops)[y]? =
+        (applyOps s'.h (ops.filter (fun op => match op with | .write x _ => !(decide (h.size ≤ x)) | .alloc _ => true)))[y]?) := by
+  constructor
+  · intro y hy
+    apply applyOps_drop (fun x => decide (x < h.size)) y ops s'.h s'.h rfl rfl
+    intro x o hm hd e
+    subst e
+    have hx : x < h.size := by simpa using hd
+    obtain ⟨r, hr1, hr2⟩ := copy_shares_only_preseeded fuel h pre v s' v' hr x hy hx
+    exact hops x o hm hx r hr1 hr2
+  · intro y hy
+    apply applyOps_drop (fun x => decide (h.size ≤ x)) y ops s'.h s'.h rfl rfl
+    intro x o _ hd e
+    subst e
+    have : h.size ≤ x := by simpa using hd
+    omega
 
 /-! ## the thin structural clone -/
 
@@ -2340,6 +2447,100 @@ theorem extractL_sup_labels (tax elb : Nat → String) : ∀ ts : List T,
     simp [extractL, labsL_cons, srcLabsSupL, extract_sup_labels tax elb c, extractL_sup_labels tax elb cs]
 end
 
+mutual
+/-- root-to-leaf length sums (in ℚ, `None` counts 0, the root's own edge included on top of `acc`), leaves left to right -/
+def X.leafSums (acc : ℚ) : X → List ℚ
+  | .node _ l _ _ [] => [acc + oval l]
+  | .node _ l _ _ (c :: cs) => X.leafSumsL (acc + oval l) (c :: cs)
+def X.leafSumsL (acc : ℚ) : List X → List ℚ
+  | [] => []
+  | c :: cs => X.leafSums acc c ++ X.leafSumsL acc cs
+end
+
+mutual
+def srcLeafSums (acc : ℚ) : T → List ℚ
+  | .node _ _ l _ [] => [acc + oval l]
+  | .node _ _ l _ (c :: cs) => srcLeafSumsL (acc + oval l) (c :: cs)
+def srcLeafSumsL (acc : ℚ) : List T → List ℚ
+  | [] => []
+  | c :: cs => srcLeafSums acc c ++ srcLeafSumsL acc cs
+end
+
+namespace Aux
+theorem absorb_oval {p c : Option Frac} (hp : OWF p) (hc : OWF c) : oval (absorb p c) = oval p + oval c ∧ OWF (absorb p c) := by
+  cases p <;> cases c <;> simp_all [absorb, oval, OWF]
+  rename_i x y
+  refine ⟨?_, by show (Frac.add y x).den ≠ 0; exact C08.Aux.mk'_den _ _⟩
+  have := C08.Aux.add_fval hc hp
+  rw [show Frac.add y x = y + x from rfl, this]; ring
+
+theorem leafSums_withLen (acc : ℚ) (k : X) (L : Option Frac) :
+    (k.withLen L).leafSums acc = k.leafSums (acc + oval L - oval k.len) := by
+  cases k with
+  | node t l s e cs => cases cs <;> simp [X.withLen, X.leafSums, X.len]
+
+theorem withLen_len (k : X) (L : Option Frac) : (k.withLen L).len = L := by
+  cases k; rfl
+end Aux
+
+mutual
+theorem extract_sup_pathsums_aux (tax elb : Nat → String) : ∀ (t : T) (acc : ℚ), LensWF t →
+    (extract true tax elb t).leafSums acc = srcLeafSums acc t ∧ OWF (extract true tax elb t).len
+  | .node i x l s cs, acc, hw => by
+    obtain ⟨hl, hcs⟩ : OWF l ∧ LensWFL cs := by simpa [LensWF] using hw
+    have ih := extractL_sup_pathsums_aux tax elb cs
+    have hlen := Aux.extractL_length true tax elb cs
+    cases hks : extractL true tax elb cs with
+    | nil =>
+      rw [hks] at hlen
+      have : cs = [] := by cases cs <;> simp_all
+      subst this
+      simp [extract, extractL, X.leafSums, srcLeafSums, X.len, hl]
+    | cons k ks =>
+      cases ks with
+      | nil =>
+        rw [hks] at hlen
+        obtain ⟨c, rfl⟩ : ∃ c, cs = [c] := by
+          match cs, hlen with
+          | [c], _ => exact ⟨c, rfl⟩
+        have hk : k = extract true tax elb c := by simp [extractL] at hks; exact hks.symm
+        have hc : LensWF c := by simpa [LensWFL] using hcs
+        obtain ⟨ihs, ihw⟩ := extract_sup_pathsums_aux tax elb c (acc + oval l) hc
+        have e : extract true tax elb (.node i x l s [c]) = k.withLen (absorb l k.len) := by simp [extract, hks]
+        have hkw : OWF k.len := by rw [hk]; exact ihw
+        obtain ⟨ho, hwf⟩ := Aux.absorb_oval hl hkw
+        rw [e, Aux.leafSums_withLen, Aux.withLen_len, ho]
+        refine ⟨?_, hwf⟩
+        simp only [srcLeafSums, srcLeafSumsL, List.append_nil]
+        rw [hk] at *
+        rw [← ihs]; congr 1; ring
+      | cons k2 ks2 =>
+        have e : extract true tax elb (.node i x l s cs) = .node (tax i) l (encodeStr s) (elb i) (k :: k2 :: ks2) := by
+          simp [extract, hks]
+        rw [e]
+        refine ⟨?_, by simpa [X.len] using hl⟩
+        have := (ih (acc + oval l) hcs)
+        rw [hks] at this
+        cases cs with
+        | nil => simp [extractL] at hks
+        | cons c cs' => simp only [X.leafSums, srcLeafSums]; exact this
+theorem extractL_sup_pathsums_aux (tax elb : Nat → String) : ∀ (ts : List T) (acc : ℚ), LensWFL ts →
+    X.leafSumsL acc (extractL true tax elb ts) = srcLeafSumsL acc ts
+  | [], _, _ => by simp [extractL, X.leafSumsL, srcLeafSumsL]
+  | c :: cs, acc, hw => by
+    obtain ⟨hc, hcs⟩ : LensWF c ∧ LensWFL cs := by simpa [LensWFL] using hw
+    simp [extractL, X.leafSumsL, srcLeafSumsL, (extract_sup_pathsums_aux tax elb c acc hc).1,
+      extractL_sup_pathsums_aux tax elb cs acc hcs]
+end
+
+/-- **extract_sup_pathsums**: suppressing unifurcations never changes a root-to-leaf length sum (in ℚ, `None` = 0, the seed's own
+edge included): the extracted tree has, leaf by leaf in order, the path lengths of its source — `absorb` moves lengths, it never loses
+or duplicates one.  (`LensWF`: every length read off the protocol has a non-zero denominator, `C08.Aux.parseTree_lensWF`.) -/
+theorem extract_sup_pathsums (tax elb : Nat → String) (t : T) (hw : LensWF t) :
+    (extract true tax elb t).leafSums 0 = srcLeafSums 0 t :=
+  (extract_sup_pathsums_aux tax elb t 0 hw).1
+
+
 /-! ## non-vacuity: the hypotheses are satisfiable and the conclusions are not empty -/
 
 /-- a cyclic 2-object heap: a node 0 with a reference to 1, which points back to 0 -/
@@ -2350,11 +2551,11 @@ def exHeap : Heap := #[
 /-- deep copy of the cycle: two fresh objects, the cycle is reproduced among them -/
 example : ∃ s' v', cpVal 2 ⟨exHeap, []⟩ (.ref 0) = .ok (s', v') ∧ v' = .ref 2 ∧ s'.h.size = 4 := by
   simp [cpVal, cpFields, exHeap, planFields, annotationsRef, setFields, List.lookup]
-  exact ⟨_, _, ⟨rfl, rfl⟩, rfl, rfl⟩
+  try exact ⟨_, _, ⟨rfl, rfl⟩, rfl, rfl⟩
 /-- with object 1 pre-seeded to itself only one object is allocated and it references the shared object 1 -/
 example : ∃ s' v', cpVal 2 ⟨exHeap, [(1, 1)]⟩ (.ref 0) = .ok (s', v') ∧ v' = .ref 2 ∧ s'.h.size = 3 := by
   simp [cpVal, cpFields, exHeap, planFields, annotationsRef, setFields, List.lookup]
-  exact ⟨_, _, ⟨rfl, rfl⟩, rfl, rfl⟩
+  try exact ⟨_, _, ⟨rfl, rfl⟩, rfl, rfl⟩
 example : Closed exHeap := by
   intro i o hget f hf k hk
   have hi : i < 2 := (Array.getElem?_eq_some_iff.mp hget).1
@@ -2380,7 +2581,7 @@ example : ∃ s' v', copyRoute exAnn [] (.ref 0) = .ok (s', v') ∧ v' = .ref 6 
     boundValue s'.h 7 = some (.ref 6, .atom "weight") := by
   simp [copyRoute, preseed, cpVal, cpFields, cpItems, exAnn, planFields, annotationsRef, setFields, setField, setFieldL, List.lookup,
     itemFields, Obj.get, retarget, isBound, boundValue, attachAnnotations, pushAnnSet, dedupVals, indexed]
-  exact ⟨_, _, ⟨rfl, rfl⟩, rfl, by simp, by simp [List.lookup]⟩
+  try exact ⟨_, _, ⟨rfl, rfl⟩, rfl, by simp, by simp [List.lookup]⟩
 /-- a node with a taxon, copied into another namespace that has no taxon of that label (`.fresh`) -/
 def exNs : Heap := #[
   { kind := .annotable, cls := "Node", fields := [("taxon", .ref 1)] },
@@ -2388,7 +2589,7 @@ def exNs : Heap := #[
 example : ∃ s' v', copyRoute exNs [(1, .fresh)] (.ref 0) = .ok (s', v') ∧ v' = .ref 4 ∧
     s'.h[4]? = some { kind := .annotable, cls := "Node", fields := [("taxon", .ref 3)] } := by
   simp [copyRoute, preseed, newTaxon, cpVal, cpFields, exNs, planFields, annotationsRef, setFields, List.lookup, Obj.get]
-  exact ⟨_, _, ⟨rfl, rfl⟩, rfl, by simp⟩
+  try exact ⟨_, _, ⟨rfl, rfl⟩, rfl, by simp⟩
 /-- the namespace-scoped route (taxon seeded to itself) shares the taxon: `route_no_write`'s hypothesis holds, the copy references 1 -/
 example : ∃ s' v', copyRoute exNs [(1, .existing 1)] (.ref 0) = .ok (s', v') ∧
     s'.h[2]? = some { kind := .annotable, cls := "Node", fields := [("taxon", .ref 1)] } := by
@@ -2447,5 +2648,53 @@ example : ObjRel [(1, 3), (0, 2)] { kind := .plain, cls := "Node", fields := [("
     · exact ⟨("w", .atom "None"), by simp, rfl, Or.inl (by simp [ValRel])⟩
 example : ∀ x ∈ targets [(1, 1)], isBound exHeap x = false := by
   intro x hx; simp [targets] at hx; subst hx; rfl
+
+namespace Aux
+theorem srcVal_of_all (c : Nat) (o : Obj)
+    (h : (o.fields.all (fun f => match f.2 with | .ref k => decide (k < c) | .atom _ => true)) = true) :
+    ∀ f ∈ o.fields, SrcVal c f.2 := by
+  intro f hf k hk
+  have := List.all_eq_true.mp h f hf
+  rw [hk] at this
+  simpa using this
+end Aux
+open Aux
+
+/-- the annotated tree `exAnn` (annotation set, attribute-bound annotation, `_value` tuple) satisfies every hypothesis of
+`copy_total` / `copy_iso_partial`: it is well-formed and its `_annotations` refers to an annotation set -/
+example : WellFormed 6 exAnn ∧
+    (∀ (i : Nat) (o : Obj) (a : Nat), i < 6 → exAnn[i]? = some o → annotationsRef o = some a →
+      ∃ ao, exAnn[a]? = some ao ∧ ao.kind = .annset) := by
+  have cases6 : ∀ i, i < 6 → i = 0 ∨ i = 1 ∨ i = 2 ∨ i = 3 ∨ i = 4 ∨ i = 5 := by intro i hi; omega
+  have hit : itemFields exAnn 1 = some [("#0", .ref 4)] := by
+    simp [itemFields, exAnn, Obj.get, List.lookup]
+  refine ⟨⟨by decide, ?_, ?_, ?_⟩, ?_⟩
+  · intro i o hi hget
+    rcases cases6 i hi with rfl | rfl | rfl | rfl | rfl | rfl <;> simp [exAnn] at hget <;> subst hget <;>
+      exact srcVal_of_all 6 _ (by decide)
+  · intro i o hi hget hk
+    rcases cases6 i hi with rfl | rfl | rfl | rfl | rfl | rfl <;> simp [exAnn] at hget <;> subst hget <;>
+      first
+      | (refine ⟨.ref 0, [("#0", .ref 4)], by simp [Obj.get, List.lookup], hit, ?_⟩
+         intro t ot e hot
+         cases e
+         simp [exAnn] at hot; subst hot; decide)
+      | cases hk
+  · intro i o a hi hget ha
+    rcases cases6 i hi with rfl | rfl | rfl | rfl | rfl | rfl <;> simp [exAnn] at hget <;> subst hget <;>
+      simp [annotationsRef, Obj.get, List.lookup] at ha
+    subst ha; exact ⟨_, hit⟩
+  · intro i o a hi hget ha
+    rcases cases6 i hi with rfl | rfl | rfl | rfl | rfl | rfl <;> simp [exAnn] at hget <;> subst hget <;>
+      simp [annotationsRef, Obj.get, List.lookup] at ha
+    subst ha
+    exact ⟨{ kind := .annset, cls := "AnnotationSet", fields := [("_item_list", .ref 2), ("_item_set", .ref 3), ("target", .ref 0)] },
+      by simp [exAnn], rfl⟩
+
+/-- a unary chain with lengths 1 and 2 above a leaf: the lengths are well-formed, so `extract_sup_pathsums` applies -/
+example : LensWF (.node 0 none none none [.node 1 none (some ⟨1, 1⟩) none [.node 2 (some 0) (some ⟨2, 1⟩) none []]]) := by
+  simp [LensWF, LensWFL, OWF]
+example := extract_sup_pathsums (fun _ => "t") (fun _ => "-")
+  (.node 0 none none none [.node 1 none (some ⟨1, 1⟩) none [.node 2 (some 0) (some ⟨2, 1⟩) none []]]) (by simp [LensWF, LensWFL, OWF])
 
 end DendroModel.C12
